@@ -160,6 +160,11 @@ def gate_monitor(cfg, case, o):
                 return "401 without WWW-Authenticate"
         if a is plug.RAISE and (disp or homes or o["status"] != 500):
             return "back-end raised but status %d / activity" % o["status"]
+    if o["status"] == 413:
+        cl = X.clen_class(env.get("CONTENT_LENGTH"))
+        if not (cfg["internal"] and cl[0] == "num" and cfg["max_len"] > 0 and cl[1] > cfg["max_len"]):
+            return "413 for CONTENT_LENGTH %r with max_content_length %d (internal server: %r)" % (
+                env.get("CONTENT_LENGTH"), cfg["max_len"], cfg["internal"])
     if o["status"] == 401 and not (o["www"] and (o["www_value"] or "").startswith("Basic realm=")):
         return "401 without Basic challenge"
     if o["www"] and o["status"] != 401:
